@@ -133,17 +133,19 @@ Definition c08_same (impl spec : list ev) : bool :=
   list_eqb ev_eqb (filter c08_keep impl) (filter c08_keep spec).
 Definition c08_monitor := prog_ok c08_same [].
 
-(** ** C09: the ORDER in which subscriber decorators, middlewares (entry and exit), the handler
+(** ** C09: the ORDER in which subscriber decorators (with the context values they see: they come after the
+    Router's context decorator), middlewares (entry and exit), the handler
     function, publisher decorators and the publisher act on one message *)
-Inductive oev := OSub (d : N) | OEnter (w : N) | OExit (w : N) | OFn | OPubDec (d : N) | OPub.
+Inductive oev := OSub (d : N) (seen : ctxv) | OEnter (w : N) | OExit (w : N) | OFn | OPubDec (d : N) | OPub.
 Definition c09_proj (tr : list ev) : list oev :=
   flat_map (fun e => match e with
-                     | ESubDec d _ => [OSub d] | EEnter w => [OEnter w] | EExit w => [OExit w]
+                     | ESubDec d c => [OSub d c] | EEnter w => [OEnter w] | EExit w => [OExit w]
                      | EFn _ _ => [OFn] | EPubDec d _ _ => [OPubDec d] | EPublish _ _ _ => [OPub]
                      | ESettle _ => [] end) tr.
 Definition oev_eqb (a b : oev) : bool :=
   match a, b with
-  | OSub x, OSub y | OEnter x, OEnter y | OExit x, OExit y | OPubDec x, OPubDec y => N.eqb x y
+  | OSub x c, OSub y c' => N.eqb x y && ctx_eqb c c'
+  | OEnter x, OEnter y | OExit x, OExit y | OPubDec x, OPubDec y => N.eqb x y
   | OFn, OFn | OPub, OPub => true
   | _, _ => false
   end.
@@ -159,5 +161,3 @@ Definition settles (tr : list ev) : list bool :=
   flat_map (fun e => match e with ESettle b => [b] | _ => [] end) tr.
 Definition mw_marks (tr : list ev) : list ev :=
   filter (fun e => match e with EEnter _ | EExit _ | EFn _ _ => true | _ => false end) tr.
-Definition ctx_of (h : hcfg) : ctxv :=
-  CX (h_name h) (pub_ty (h_pub h)) (h_subty h) (h_subtopic h) (h_pubtopic h).
